@@ -185,12 +185,12 @@ class Run:
             raise Infra("TLC failed on %s (%s):\n%s" % (module, cfgname, tail))
         return res
 
-    def validate_trace(self, module, tracefile, n_traces, extra_constants="", timeout=900):
+    def validate_trace(self, module, tracefile, n_traces, extra_constants="", timeout=900, spec="Spec"):
         """Runs the trace/observation spec <module> over an ndjson file recorded from the real code."""
         path = os.path.join(self.work, tracefile)
         if not os.path.exists(path) or os.path.getsize(path) == 0:
             raise Infra("trace file %s is missing or empty" % tracefile)
-        cfg = "SPECIFICATION Spec\nCONSTANTS\n  TraceFile = \"%s\"\n%s\nPOSTCONDITION TraceAccepted\nCHECK_DEADLOCK FALSE\n" % (
+        cfg = "SPECIFICATION " + spec + "\nCONSTANTS\n  TraceFile = \"%s\"\n%s\nPOSTCONDITION TraceAccepted\nCHECK_DEADLOCK FALSE\n" % (
             tracefile, extra_constants)
         res = self.tlc(module, cfg, "trace", workers=1, timeout=timeout)
         nlines = sum(1 for _ in open(path))
